@@ -291,6 +291,7 @@ func (e *Enc) havocAll(st *State) {
 		st.heap[k] = e.fresh(k, e.heapSort[k])
 		e.writeLog[k] = true
 	}
+	e.havocUnknown(st)
 	e.bumpAlloc(st)
 }
 
